@@ -182,12 +182,12 @@ Qed.
 
 (* the request's own errors + the failed hooks of the resolve phases = the errors of the result *)
 Lemma fail_fields_eq : forall fs k xs,
-  count is_failure (fields_log k fs xs) + N.of_nat (length (filter (fun st : step => rfails (snd st)) fs)) =
+  count is_failure (fields_log k fs xs) + N.of_nat (length (filter (fun st : step => rerrs (snd st)) fs)) =
   fields_errs k fs xs.
 Proof.
   induction fs as [|fb r IH]; intros k xs; [reflexivity|].
   cbn [fields_log fields_errs filter]. rewrite count_app, fail_block, count_nil. specialize (IH (k + 1) xs).
-  unfold rn. destruct (rfails (snd fb)); cbn [length]; lia.
+  unfold rn. destruct (rerrs (snd fb)); cbn [length]; lia.
 Qed.
 
 Lemma fail_body_eq : forall c xs,
